@@ -324,8 +324,13 @@ def rg_level(chk, rep, recs, limit):
                     chk.validated += 1
                     continue
                 if kind == "dec":
-                    raise vlib.ToolError("model drift: rg --encoding none on the transcoding %r gives %r, GrepModel %r"
-                                         % (r["dec"], got, exp))
+                    # the reference run itself: --encoding none must search the bytes untouched (a clause of the statement)
+                    rep.report({"clause": "none_is_raw", "encoding": "none", "bom": "reference", "strategy": "rg-mmap" if mm == "--mmap" else "rg",
+                                "chunking": "max", "level": "rg", "effective": "raw", "malformed": False, "eof_flush": False, "missing": 0},
+                               {"level": "rg", "why": "rg --encoding none on the UTF-8 transcoding does not give the results of searching "
+                                                      "those bytes (GrepModel)", "scn": r["scn"], "bytes": r["dec"], "dec": r["dec"],
+                                "label": "none", "mmap": mm, "expected": exp, "observed": got})
+                    continue
                 sig = {"clause": clause_of(r), "encoding": label, "bom": r["scn"]["bom"],
                        "strategy": "rg-mmap" if mm == "--mmap" else "rg", "chunking": "max", "level": "rg",
                        "effective": r["eff"], "malformed": r["mal"] > 0, "eof_flush": r["flush"],
